@@ -34,8 +34,13 @@ def listNodeSize (minElem ns : BitVec 64) : BitVec 64 := if ns > minElem then ns
 def bucketNodeSize (p : Policy) (minElem s : BitVec 64) : BitVec 64 :=
   listNodeSize minElem (p.sizeFromIndex (bucketIndex p minElem s))
 
+/-- `free_list_array::max_index` (clamped like `get`) -/
+def maxIndex (p : Policy) (minElem maxNode : BitVec 64) : BitVec 64 :=
+  let i := p.indexFromSize maxNode
+  if bucketMaxIndexClampCond i (minSizeIndex p minElem) then minSizeIndex p minElem else i
+
 /-- `no_elements_` computed by the constructor of `free_list_array` -/
 def noElements (p : Policy) (minElem maxNode : BitVec 64) : BitVec 64 :=
-  p.indexFromSize maxNode - minSizeIndex p minElem + 1#64
+  maxIndex p minElem maxNode - minSizeIndex p minElem + 1#64
 
 end MemVerif.Model
